@@ -320,6 +320,92 @@ def generate(impls_rs, key_rs, tree_rs):
                     fm = fmap
                 out += value_fn(f"{rust}.{method}", b, method, len(fm), fieldmap=fm, same_child=True,
                                 doc=f"`<{rust}<T> as {trait}>::{method}` (fields as a list: {sorted(fm, key=fm.get)})")
+    # Result<T, E> and Bound<T>: `match (self, keys.next(&L)?) { (Variant(value), k) => value.f(keys, x), .., _ => Absent(0) }`.
+    # `self` is a generated inductive with one constructor per variant; or-patterns are split; in the `&mut self`
+    # functions the (possibly updated) payload is put back into the same constructor.
+    out.append("/-- the runtime value of a `Result<T, E>` (payload: the child's state) -/")
+    out.append("inductive ResultSt (C : Type) where\n  | Ok (value : C)\n  | Err (value : C)\n")
+    out.append("/-- the runtime value of a `Bound<T>` -/")
+    out.append("inductive BoundSt (C : Type) where\n  | Included (value : C)\n  | Excluded (value : C)\n  | Unbounded\n")
+
+    def enum_fn(rust, st, variants, method, hdr, trait):
+        """variants: Rust constructor name -> (lean ctor, child index)"""
+        tag, mutating, res_ty, tparams = OPS[method]
+        _sig, b = fn_in(src, hdr, method)
+        nchild = 1 + max(c for _l, c in variants.values())
+
+        def arm_body(ctor_path, child):
+            cname = f"child{tag}{child}" if nchild > 1 else f"child{tag}"
+            if mutating:
+                return ("block", [("let", ("pbind", "r"), ("call", ("path", ["eff_" + cname]), [])),
+                                  ("semi", ("assign", "=", ("path", ["self"]), ("call", ("path", ctor_path), [("path", ["value"])])))],
+                        ("path", ["r"]))
+            return ("call", ("path", [cname]), [("path", ["value"]), ("path", ["keys"])])
+
+        def fix(e):
+            if isinstance(e, tuple):
+                if e and e[0] == "match" and e[1][0] == "tuple" and e[1][1] and e[1][1][0] == ("path", ["self"]):
+                    arms = []
+                    for pats, guard, body in e[2]:
+                        for pat in pats:
+                            if pat[0] == "ptuple" and pat[1][0][0] == "ppath" and pat[1][0][1][-1] in variants:
+                                vname = pat[1][0][1][-1]
+                                lean_ctor, child = variants[vname]
+                                if body[0] == "block" and not body[1]:
+                                    body_ = body[2]
+                                else:
+                                    body_ = body
+                                if not (body_[0] == "mcall" and body_[1] == ("path", ["value"]) and body_[2] == method):
+                                    raise Unsupported(f"{rust}::{method}: arm body {body_!r}")
+                                path = [st, vname]
+                                arms.append(([("ptuple", [("ppath", path, pat[1][0][2]), pat[1][1]])], guard, arm_body(path, child)))
+                            elif pat == ("pwild",):
+                                arms.append(([pat], guard, fix(body)))
+                            else:
+                                raise Unsupported(f"{rust}::{method}: arm pattern {pat!r}")
+                    return ("match", e[1], arms)
+                return tuple(fix(x) for x in e)
+            if isinstance(e, list):
+                return [fix(x) for x in e]
+            return e
+        b = fix(b)
+        tb = tables(0, dict(consts), dict(key_fns, **{"Traversal::increment": ("Traversal.increment", "pure")}))
+        tb.methods = dict(VAL_METHODS)
+        tb.methods[("Traversal", "into")] = {"kind": "fmt", "fmt": "(Error.Traversal {0})"}
+        tb.ctors = dict(CORE_CTORS)
+        for vname, (lean_ctor, _c) in variants.items():
+            tb.ctors[f"{st}::{vname}"] = f"{st}.{vname}"
+        tb.effects = {("mcall", "keys", "next"): {"fmt": "(keysNext keys {0})", "pair": "keys", "err": "Traversal"}}
+        anytag = "AnyRes" if tag in ("Ref", "Mut") else None
+        for c in range(nchild):
+            cname = f"child{tag}{c}" if nchild > 1 else f"child{tag}"
+            if mutating:
+                tb.effects[("call", "eff_" + cname)] = {"fmt": f"({cname} value keys)", "pair": "value", "ret": anytag}
+            else:
+                tb.fns[cname] = (cname, "pure")
+                tb.rettags = dict(getattr(tb, "rettags", {}), **{cname: anytag})
+        tb.try_into = {"Traversal": "(Error.Traversal {0})"} if tag in ("Ser", "De") else {}
+        tb.vartypes = dict(tb.vartypes, r=anytag)
+        tb.structs = {"Self": f"{st} C"}
+        tb.self_type = st
+        sig = (f"{{K C : Type}} {tparams}(keysNext : K → KeyLookup → Except Traversal Nat × K) "
+               f"{child_sig(tag, mutating, res_ty, nchild if nchild > 1 else None)} (self : {st} C) (keys : K)")
+        return translate_fn(b, f"{rust}.{method}", sig, res_ty, tb, "panic", mut_self=mutating,
+                            doc=f"`<{rust}<…> as {trait}>::{method}`")
+
+    for rust, st, variants, hdrs in (
+            ("Result", "ResultSt", {"Ok": ("ResultSt.Ok", 0), "Err": ("ResultSt.Err", 1)},
+             {"TreeSerialize": r"<T: TreeSerialize, E: TreeSerialize> TreeSerialize for Result<T, E>",
+              "TreeDeserialize": r"<'de, T: TreeDeserialize<'de>, E: TreeDeserialize<'de>> TreeDeserialize<'de> for Result<T, E>",
+              "TreeAny": r"<T: TreeAny, E: TreeAny> TreeAny for Result<T, E>"}),
+            ("Bound", "BoundSt", {"Included": ("BoundSt.Included", 0), "Excluded": ("BoundSt.Excluded", 0)},
+             {"TreeSerialize": r"<T: TreeSerialize> TreeSerialize for Bound<T>",
+              "TreeDeserialize": r"<'de, T: TreeDeserialize<'de>> TreeDeserialize<'de> for Bound<T>",
+              "TreeAny": r"<T: TreeAny> TreeAny for Bound<T>"})):
+        for trait, methods in (("TreeSerialize", ["serialize_by_key"]), ("TreeDeserialize", ["deserialize_by_key"]),
+                               ("TreeAny", ["ref_any_by_key", "mut_any_by_key"])):
+            for method in methods:
+                out += enum_fn(rust, st, variants, method, hdrs[trait], trait)
     # Option<T>: `self.as_ref().ok_or(Absent(0))?.f(keys, x)` — the unwrapped value is bound to `inner`, the child call is a
     # parameter, and for the `&mut self` functions the (possibly updated) value is put back
     def option_fn(method, trait_hdr):
